@@ -256,5 +256,103 @@ fn main() {
             .prop_map(|(raw, optimize, threads)| Case { graph: GraphCase::Raw(raw), optimize, threads })
     };
     ck.prop_export("call-sets", n, mk, |c| oracle(&p, &shared, repeats, c), |c| Case { graph: c.graph.export(&p), ..c.clone() });
+    // Plan-cache stress: few models, many threads hammering `run` with two
+    // alternating output sets and no delays, so that plan creation, cache
+    // replacement and plan use of different threads overlap as often as the
+    // scheduler allows.
+    let iters = ck.pick(600, 6000) as usize;
+    let n_stress = ck.pick(60, 600);
+    ck.set_threads(1);
+    ck.prop_export(
+        "plan-cache-stress",
+        n_stress,
+        || (raw_graph(3, 6), any::<bool>(), any::<[u16; 2]>()).prop_map(|(raw, optimize, sel)| Stress { graph: GraphCase::Raw(raw), optimize, sel }),
+        |c| stress_oracle(&p, &shared, iters, c),
+        |c| Stress { graph: c.graph.export(&p), ..c.clone() },
+    );
     ck.finish();
+}
+
+#[derive(Clone, Debug, Serialize, Deserialize)]
+struct Stress {
+    graph: GraphCase,
+    optimize: bool,
+    sel: [u16; 2],
+}
+
+fn stress_oracle(profile: &Profile, shared: &Arc<ThreadPool>, iters: usize, c: &Stress) -> Verdict {
+    let built = c.graph.build(profile);
+    let bytes = built.model.encode();
+    let cfg = if c.optimize { Config::OptInferOn } else { Config::Plain };
+    let model = match vcore::catch(|| cfg.load(&bytes)) {
+        Ok(Ok(m)) => m,
+        _ => return Verdict::pass(false).label("load-failed"),
+    };
+    let names: Vec<String> = built.values.iter().map(|v| v.name.clone()).filter(|n| model.find_node(n).is_some()).collect();
+    let mut known: Vec<(NodeId, TVal)> = Vec::new();
+    for n in &names {
+        if let Ok(Ok(v)) = vcore::catch(|| run_named(&model, &built.inputs, &[n.clone()], None, None)) {
+            known.push((model.find_node(n).unwrap(), v[0].clone()));
+        }
+    }
+    if known.len() < 2 {
+        return Verdict::pass(false).label("too-few-computable-values");
+    }
+    let a = ((c.sel[0] as usize) * known.len()) >> 16;
+    let mut b = ((c.sel[1] as usize) * known.len()) >> 16;
+    if b == a {
+        b = (a + 1) % known.len();
+    }
+    let inputs: Vec<(NodeId, TVal)> = built.inputs.iter().filter_map(|(n, v)| model.find_node(n).map(|id| (id, v.clone()))).collect();
+    // two output sets of different sizes, so a plan made for one cannot serve the other
+    let sets: [Vec<NodeId>; 2] = [vec![known[a].0], vec![known[b].0, known[a].0]];
+    let expect: [Vec<TVal>; 2] = [vec![known[a].1.clone()], vec![known[b].1.clone(), known[a].1.clone()]];
+    let n_threads = 6;
+    let barrier = Barrier::new(n_threads);
+    let results: Vec<Result<Option<String>, vcore::PanicInfo>> = std::thread::scope(|s| {
+        let handles: Vec<_> = (0..n_threads)
+            .map(|t| {
+                let (model, barrier, sets, expect, inputs) = (&model, &barrier, &sets, &expect, &inputs);
+                s.spawn(move || {
+                    barrier.wait();
+                    vcore::catch(|| {
+                        for i in 0..iters {
+                            let k = (i + t) % 2;
+                            let ins: Vec<(NodeId, ValueOrView)> = inputs.iter().map(|(id, v)| (*id, ValueOrView::from(v.to_value()))).collect();
+                            let opts = RunOptions::default().with_thread_pool(Some(shared.clone()));
+                            match model.run(ins, &sets[k], Some(opts)) {
+                                Ok(vs) => {
+                                    let got: Vec<TVal> = vs.iter().map(TVal::from_value).collect();
+                                    for (x, y) in expect[k].iter().zip(&got) {
+                                        if let Err(why) = compare(x, y, Tol { rtol: 1e-5, atol: 1e-6 }) {
+                                            return Some(format!("thread {t} iteration {i} output set {k}: {why}"));
+                                        }
+                                    }
+                                    if got.len() != expect[k].len() {
+                                        return Some(format!("thread {t} iteration {i}: {} outputs instead of {}", got.len(), expect[k].len()));
+                                    }
+                                }
+                                Err(e) => return Some(format!("thread {t} iteration {i} output set {k}: run failed: {e}")),
+                            }
+                        }
+                        None
+                    })
+                })
+            })
+            .collect();
+        handles.into_iter().map(|h| h.join().expect("worker thread")).collect()
+    });
+    for r in results {
+        match r {
+            Err(p) => {
+                return Verdict::fail(
+                    format!("stress-panic:{}", p.signature()),
+                    format!("a thread panicked while 6 threads alternated between two output sets: {} at {}; ops={:?}", p.msg, p.loc(), built.op_types),
+                )
+            }
+            Ok(Some(why)) => return Verdict::fail("stress-differs", format!("{why}; ops={:?}", built.op_types)),
+            Ok(None) => {}
+        }
+    }
+    Verdict::pass_l(true, vec!["plan-cache-stress"])
 }
